@@ -40,6 +40,7 @@ def run(ctx):
                     "e: library flows that handle ColangError escape the error text they interpolate (a handler that fails on its own error re-triggers itself)"]
     ctx.not_decided = ["termination within a bound depending on program size in general (no ranking argument in reach of this family); only the named guards are decided"]
     a_containment(ctx)
+    a_benign_premise(ctx)
     a_position_stores(ctx)
     b_api(ctx)
     c_restart_guards(ctx)
@@ -128,6 +129,37 @@ def a_containment(ctx):
     stale = [k for k in BENIGN if k not in seen]
     for k in stale:
         ctx.note("C10.a: benign table entry %s -> %s no longer matches an uncovered edge" % k)
+
+
+def a_benign_premise(ctx):
+    """Two benign entries of the frontier table rest on one premise: the `send` element that _resolve_action_conflicts re-evaluates outside the per-flow try was already
+    evaluated IN FULL by slide(), under the try, before the head stopped on it (so the second evaluation cannot be the first to fail).  Decided here: in slide(), every
+    path from the `send` test to the exit that parks the head on an action event passes a call of get_event_from_element for that element."""
+    t = ctx.tree.ast(SM)
+    fn = find_function(t, "slide")
+    if fn is None:
+        raise AnalysisError("slide not found", anchor=SM + "::slide")
+    sends = [i for i in walk_no_nested(fn) if isinstance(i, ast.If) and any(
+        isinstance(c, ast.Compare) and len(c.ops) == 1 and isinstance(c.ops[0], ast.Eq) and isinstance(c.left, ast.Attribute) and c.left.attr == "op"
+        and isinstance(c.comparators[0], ast.Constant) and c.comparators[0].value == "send" for c in ast.walk(i.test))]
+    ctx.floor("C10.a.benign-premise", SM, "`send` branch of slide()", len(sends), 1)
+    if not sends:
+        return
+    cfg = CFG(fn)
+    for i in sends:
+        test = cfg.node_of(i.test) or cfg.node_of(i)
+        first = [m for m, lab in test.succ if lab is True] if test is not None else []
+        full = [n for n in cfg.nodes if n.ast is not None and n.line and i.body[0].lineno <= n.line <= getattr(i.body[-1], "end_lineno", i.body[-1].lineno)
+                and any(isinstance(c, ast.Call) and src(c.func) == "get_event_from_element" for c in walk_no_nested(n.ast))]
+        stops = [n for n in cfg.nodes if n.kind == "stmt" and isinstance(n.ast, (ast.Break, ast.Return)) and any(n.ast is x for b in i.body for x in ast.walk(b))]
+        bad = [st for st in stops if not (first and full and all(cfg.must_pass(f_, st, full, include_a=True) for f_ in first))]
+        ok = bool(stops) and not bad
+        ctx.check("C10.a.benign-premise", SM, "slide", "send element evaluated in full before the head stops on it", ok,
+                  "slide() builds the complete event of a `send` element (all argument expressions) inside the per-flow try before it parks the head: the later re-evaluation in "
+                  "_resolve_action_conflicts cannot be the first one to fail" if ok else
+                  "slide() parks the head on a `send` element (line %d) without having evaluated its arguments: they are evaluated for the first time in _resolve_action_conflicts / "
+                  "_generate_action_event_from_actionable_element, outside the per-flow try - a faulty argument (`send Ev(x=$undefined.attr)`) raises out of run_to_completion and the "
+                  "other flows lose the event" % (bad[0].line if bad else i.lineno), line=(bad[0].line if bad else i.lineno))
 
 
 def a_position_stores(ctx):
@@ -276,6 +308,36 @@ def b_api(ctx):
                       "ColangError event raises again - e.g. a flow waits for `ColangError(<expression that cannot be evaluated>)` - process_events never returns", line=h.lineno)
 
 
+            # ... and the bound must not outlive the event it belongs to: a flag that ends the retry is re-armed for EVERY input event, otherwise the first reported
+            # error of a process_events call silences every later one (they would be logged only, no ColangError event)
+            if okb:
+                flags = set()
+                for e in guarded:
+                    for p_ in _anc(e, h):
+                        if isinstance(p_, ast.If):
+                            flags |= {x.id for x in ast.walk(p_.test) if isinstance(x, ast.Name)}
+                stores = {}
+                for a in walk_no_nested(fn):
+                    if isinstance(a, ast.Assign) and len(a.targets) == 1 and isinstance(a.targets[0], ast.Name) and a.targets[0].id in flags:
+                        stores.setdefault(a.targets[0].id, []).append(a)
+                state_flags = {f for f in flags if any(not (isinstance(a.value, ast.Constant)) or bool(a.value.value) for a in stores.get(f, []))
+                               and any(a in list(ast.walk(h)) for a in stores.get(f, []))}
+                retry = [p_ for p_ in _anc(tr, fn) if isinstance(p_, ast.While)]
+                ev_loop = [p_ for p_ in _anc(tr, fn) if isinstance(p_, (ast.For, ast.AsyncFor))]
+                for f in sorted(state_flags):
+                    resets = [a for a in stores.get(f, []) if isinstance(a.value, ast.Constant) and not a.value.value and a not in list(ast.walk(h))]
+                    def innermost_loop(n):
+                        for p_ in _anc(n, fn):
+                            if isinstance(p_, (ast.For, ast.AsyncFor, ast.While)):
+                                return p_
+                        return None
+                    okr = bool(ev_loop) and bool(retry) and any(innermost_loop(a) is ev_loop[0] and a.lineno < retry[0].lineno for a in resets)
+                    ctx.check("C10.b.api-reports-each", RT, qualname(fn), "flag that ends the retry is re-armed per event", okr,
+                              "the flag that ends the retry loop is reset inside the loop over the input events, before each event is processed" if okr else
+                              "`%s` ends the error-reporting retry but is not reset for every input event: after the first escaping error of a process_events call every later "
+                              "error of that call is only logged - no ColangError event, the failure is invisible to the flows" % f, line=(resets[0].lineno if resets else h.lineno))
+
+
 def c_error_before_restart(ctx):
     """A failed flow that is activated is restarted by a StartFlow pushed to the FRONT of the internal queue.  If the ColangError of the failure is appended to the END, the
     fresh instance is already listening when the error is processed: a flow that reacts to ColangError and fails itself receives the error of its own previous instance, fails
@@ -411,21 +473,38 @@ def a_typed_stores(ctx):
         raise AnalysisError("slide not found", anchor=SM + "::slide")
     stores = [a for a in ast.walk(sl) if isinstance(a, ast.Assign) and isinstance(a.targets[0], ast.Attribute) and a.targets[0].attr == "priority" and isinstance(a.value, ast.Name)]
     ctx.floor("C10.a.typed-store", SM, "stores of a computed flow priority", len(stores), 1)
+    cfg = CFG(sl)
     for a in stores:
         v = a.value.id
-        blk = None
-        p_ = a._parent
-        for f in ("body", "orelse"):
-            b = getattr(p_, f, None)
-            if isinstance(b, list) and a in b:
-                blk = b
-        checks = [i for i in (blk or []) if isinstance(i, ast.If) and i.lineno < a.lineno and any(isinstance(r, ast.Raise) for r in i.body)]
+        store = cfg.node_of(a)
+
+        def ev(e):
+            """value of a test when `isinstance(v, ...)` is False and everything else is unknown"""
+            if isinstance(e, ast.Call) and src(e.func) == "isinstance" and e.args and src(e.args[0]) == v:
+                return False
+            if isinstance(e, ast.UnaryOp) and isinstance(e.op, ast.Not):
+                r = ev(e.operand)
+                return None if r is None else (not r)
+            if isinstance(e, ast.BoolOp):
+                vals = [ev(x) for x in e.values]
+                if isinstance(e.op, ast.And):
+                    return False if any(x is False for x in vals) else (True if all(x is True for x in vals) else None)
+                return True if any(x is True for x in vals) else (False if all(x is False for x in vals) else None)
+            return None
+
+        # some test that dominates the store sends every non-instance to a raise (and not to the store)
         ok = False
-        for i in checks:
-            ops = i.test.values if isinstance(i.test, ast.BoolOp) and isinstance(i.test.op, ast.Or) else [i.test]
-            for o in ops:
-                if isinstance(o, ast.UnaryOp) and isinstance(o.op, ast.Not) and isinstance(o.operand, ast.Call) and src(o.operand.func) == "isinstance" and src(o.operand.args[0]) == v:
-                    ok = True
+        for tn in cfg.nodes:
+            if tn.kind != "test" or tn.ast is None or store is None or not cfg.dominates(tn, store):
+                continue
+            out = ev(tn.ast)
+            if out is None:
+                continue
+            nxt = [m for m, lab in tn.succ if lab is out]
+            reach = cfg.reachable(nxt)
+            raises = [r for r in reach | set(nxt) if r.kind == "stmt" and isinstance(r.ast, ast.Raise)]
+            if raises and store not in reach and store not in nxt:
+                ok = True
         ctx.check("C10.a.typed-store", SM, "slide", first_line(a, 60), ok,
                   "a priority that is not a number raises inside slide() (inside the per-flow containment)" if ok else
                   "no check before `%s` raises for a NON-NUMBER: `priority \"0.5\"` is stored, and the uncontained matcher later multiplies the score by it - TypeError out of run_to_completion for every later "
